@@ -51,6 +51,20 @@ func TestCheck(t *testing.T) {
 				Visit: func(n *hist.Node, bc *blockchain.Blockchain) {
 					q := checkNode(r, n, bc, label)
 					r.Add("evaluations", int64(q))
+					// the same history on one long-lived node (no restart between the operations)
+					if len(n.Ops) >= 2 {
+						lbc, ld, err := n.ReplayLongLived(newState)
+						if err != nil {
+							r.Violate("history-fails-on-long-lived-node "+label+n.Exotic(), map[string]any{"path": n.PathString(), "err": err.Error()})
+							return
+						}
+						if chain.ImageHash(ld) != n.Key {
+							r.Outcome("long-lived image differs from restart-per-op image")
+						}
+						q := checkNode(r, n, lbc, label+" [long-lived]")
+						r.Add("evaluations", int64(q))
+						r.Add("long_lived_replays", 1)
+					}
 				},
 			})
 			states += int64(st.States)
